@@ -264,6 +264,25 @@ func H_C13_devices() {
 		gotHas = bor(gotHas, hit)
 		gotVal = ifStr(hit, d.Type, gotVal)
 	}
+	// every added device gets a cgroup rule with its own type and numbers, in order
+	var sets []*nri.LinuxDevice
+	for _, d := range adj {
+		if _, marked := d.IsMarkedForRemoval(); !marked {
+			sets = append(sets, d)
+		}
+	}
+	var rules []rspec.LinuxDeviceCgroup
+	if g.Config.Linux.Resources != nil {
+		rules = g.Config.Linux.Resources.Devices
+	}
+	vassert(len(rules) == len(sets), "device-cgroup-rule-count")
+	if len(rules) == len(sets) {
+		for i, d := range sets {
+			vassert(rules[i].Allow && rules[i].Type == d.Type, "device-cgroup-rule-type")
+			vassert(rules[i].Major != nil && *rules[i].Major == d.Major, "device-cgroup-rule-major")
+			vassert(rules[i].Minor != nil && *rules[i].Minor == d.Minor, "device-cgroup-rule-minor")
+		}
+	}
 	vassert(gotHas == expHas, "device-presence")
 	vassert(bimp(band(gotHas, expHas), gotVal == expVal), "device-value")
 	cover("done")
